@@ -174,6 +174,22 @@ PROPS["C19"] = dict(
     design="DESIGN.md §4 C19",
 )
 
+PROPS["C02"] = dict(
+    technique="static analysis: must-pass-through guards on the fusion predicates' CFGs, provenance (def-use) table of every field of a fused operation, re-wiring and copy-before-mutate rules, sibling agreement of the nested dispatchers",
+    text=(
+        "Decides the eligibility, re-wiring and provenance logic of both optimisers: every path to a truthy "
+        "result of can_fuse_predecessors / can_fuse passes the guards 'requested arrays stay materialised' and "
+        "'multi-output producers are not fused'; the per-predecessor flag implies primitive op and single "
+        "consumer and both consumers pass None for unflagged predecessors; removal happens only under the flag "
+        "and the removed op's incoming edges are inherited; optimisation works on copies; and each "
+        "value-relevant field of a fused operation (task set, target, write/read proxies, source names, "
+        "predecessor key/function dictionaries) has the origin it must have. Guard and provenance facts hold "
+        "for every graph shape; the suite optimises a few dozen graphs."
+    ),
+    note="Does NOT decide that composed key/block functions are extensionally equal to the unfused ones (needs execution or proof). fusable_* declarations are not armed (they encode cost, not correctness).",
+    design="DESIGN.md §4 C02",
+)
+
 CLAIMED = sorted(PROPS)
 
 NOT_APPLICABLE = {
